@@ -183,6 +183,16 @@ InitPL2 ==
        /\ st = WithPL(WithMem(BaseSt, "alice", "join"), SetKey(SetKey(BasePL(2), PLKeySeq[i], o1), PLKeySeq[j], o2))
        /\ ev = PLEv(SetKey(SetKey(BasePL(2), PLKeySeq[i], n1), PLKeySeq[j], n2))
 
+\* per-event-type entries against BOTH defaults held constant at any value (the level a type needs as a message
+\* resp. state event when it has no entry), for senders at level 2 and 3
+InitPL3 ==
+    \E s \in {2, 3}, ed \in PLValsSmall, sd \in PLValsSmall, k \in {"events.topic", "events.msg", "events.pl"},
+       o \in PLValsSmall, n \in PLValsSmall :
+       /\ o # n
+       /\ LET ctx == SetKey(SetKey(BasePL(s), "events_default", ed), "state_default", sd) IN
+          /\ st = WithPL(WithMem(BaseSt, "alice", "join"), SetKey(ctx, k, o))
+          /\ ev = PLEv(SetKey(ctx, k, n))
+
 \* first power-levels event of a room (no current one), bad user key, creators in v12, sender not joined
 InitPL0 ==
     \E sender \in {"creator", "alice"}, haspl \in BOOLEAN, addl \in {{}, {"alice"}},
@@ -238,6 +248,7 @@ Init ==
          [] Family = "pl0" -> InitPL0
          [] Family = "pl1" -> InitPL1
          [] Family = "pl2" -> InitPL2
+         [] Family = "pl3" -> InitPL3
 
 \* one action: the check itself (Allowed is a pure function of the scenario)
 Check ==
